@@ -274,3 +274,49 @@ extern "C" void h_complex_from(void)
   }
   REACHABLE("h_complex_from");
 }
+
+/* ------------------------------------------------------------------------------------------
+   C20 (unit load_exact_numbers): the loaders of Rational and Complex (serialize-cereal.h, loaders.inc) hand archive data
+   to the glue above.  Contract: for ANY two exact numbers read from the archive the loader either returns a normalised
+   number (zoo / nan for a zero denominator) or throws a library exception — in particular no GMP precondition
+   (non-zero denominator) is violated, which would be a SIGFPE in the real library. */
+#ifdef C20_LOADERS
+struct ArchiveN {
+  Number *a_, *b_;
+  void operator()(Integer *&x, Integer *&y) { x = a_->in; y = b_->in; }
+  void operator()(Number *&x, Number *&y) { x = a_; y = b_; }
+};
+typedef ArchiveN Archive;
+#include "loaders.inc"
+extern "C" void h_load_rational(void)
+{
+  init();
+  Number N, D; Integer NI, DI;
+  N.kind = NK_INTEGER; N.in = &NI; N.ra = &s_norat; N.co = &s_nocplx; D.kind = NK_INTEGER; D.in = &DI; D.ra = &s_norat; D.co = &s_nocplx; NI.num_ = &N; DI.num_ = &D;
+  NI.i = nondet_long(); DI.i = nondet_long(); RANGE(NI.i, -12, 12); RANGE(DI.i, -12, 12);
+  ArchiveN ar; ar.a_ = &N; ar.b_ = &D;
+  verif_may_throw = false;
+  int dummy = 0;
+  RCPNumber r = load_basic_Rational(ar, dummy);
+  if (DI.i == 0) OBL("C20.load_basic.Rational.post.zero_denominator_gives_zoo_or_nan", r->kind == (NI.i == 0 ? NK_NAN : NK_ZOO));
+  else OBL("C20.load_basic.Rational.post.result_is_normalised", normalised(r));
+  REACHABLE("h_load_rational");
+}
+extern "C" void h_load_complex(void)
+{
+  init();
+  Number Re, Im; Integer ReI, ImI; Rational ReR, ImR;
+  Re.in = &ReI; Re.ra = &ReR; Re.co = &s_nocplx; Im.in = &ImI; Im.ra = &ImR; Im.co = &s_nocplx;
+  ReI.i = nondet_long(); ImI.i = nondet_long(); RANGE(ReI.i, -6, 6); RANGE(ImI.i, -6, 6);
+  mk_canonical_nonint(ReR, -6, 6, 6); mk_canonical_nonint(ImR, -6, 6, 6);
+  int kr = nondet_int(), ki = nondet_int(); __CPROVER_assume(kr >= NK_INTEGER && kr <= NK_ZOO && ki >= NK_INTEGER && ki <= NK_ZOO);
+  Re.kind = kr; Im.kind = ki;
+  ArchiveN ar; ar.a_ = &Re; ar.b_ = &Im;
+  bool exact = (kr == NK_INTEGER || kr == NK_RATIONAL) && (ki == NK_INTEGER || ki == NK_RATIONAL);
+  verif_may_throw = !exact;                          /* "Invalid Format: Expected Integer or Rational" for anything else */
+  int dummy = 0;
+  RCPNumber r = load_basic_Complex(ar, dummy);
+  OBL("C20.load_basic.Complex.post.result_is_a_normalised_exact_number", r->kind == NK_COMPLEX || normalised(r));
+  REACHABLE("h_load_complex");
+}
+#endif
